@@ -1481,7 +1481,7 @@ fn random_helper(rng: &mut Rng, flags: &mut String, profile: Profile, cols: u16)
     }
 }
 
-fn malformed_token(rng: &mut Rng) -> String {
+fn malformed_token(rng: &mut Rng, big_used: &mut bool) -> String {
     match rng.below(10) {
         0 => {
             let k = 1 + rng.below(4);
@@ -1490,11 +1490,14 @@ fn malformed_token(rng: &mut Rng) -> String {
         1 => rng.pick(&["1b5b", "1b5b31", "1b5b313b", "1b4f", "1b1b", "1b5b323030", "1b5b3230307e", "1b5b3230317e"]).to_string(),
         2 => rng.pick(&["00", "c280", "c29b", "c285", "ff", "c0af", "eda080", "f4908080", "e2"]).to_string(),
         3 => {
-            // very large numeric argument
+            // very large numeric argument — once per script: a second one multiplies (a yank of a
+            // yanked text, 9999 x 9999 characters), which tests nothing but memory
             let mut s = String::from("1b39");
-            for _ in 0..rng.below(8) {
+            let more = if *big_used { rng.below(2) } else { rng.below(8) };
+            for _ in 0..more {
                 s.push_str("39");
             }
+            *big_used = true;
             s
         }
         4 => rng.pick(&["1b5b3939393b39393952", "1b5b313b3252", "1b5b3130307e", "1b5b31353b357e"]).to_string(),
@@ -1596,9 +1599,10 @@ pub fn gen_profile(ctx: &GenCtx, tag: &str, profile: Profile, sink: &mut dyn FnM
         let k = 1 + rng.below(if ctx.thorough { 30 } else { 14 });
         let mut toks: Vec<String> = vec![];
         let mut insert_mode = true;
+        let mut big_used = false;
         for _ in 0..k {
             if profile == Profile::Malformed && rng.chance(1, 3) {
-                toks.push(malformed_token(&mut rng));
+                toks.push(malformed_token(&mut rng, &mut big_used));
                 continue;
             }
             if profile == Profile::Validator && rng.chance(1, 5) {
